@@ -21,20 +21,17 @@ def pcccService (tbl : Slc.Table) (d : Bytes) : Slc.Table × MRReply :=
   let fnc := u8at d 11
   let reply (sts : Nat) (data : Bytes) : MRReply := { data := rid ++ [UInt8.ofNat (cmd + 0x40), UInt8.ofNat sts] ++ tns ++ data }
   if cmd ≠ 0x0F ∨ u8at d 8 ≠ 0 then (tbl, reply 0x10 []) else
-  if d.length < 17 then (tbl, reply 0x10 []) else
-  let size := u8at d 12
-  let fnum := u8at d 13
-  let ftype := u8at d 14
-  let elem := u8at d 15
-  let sub := u8at d 16
+  match Slc.decodeAddress (d.drop 12) with
+  | none => (tbl, reply 0x10 [])
+  | some (size, fnum, ftype, elem, sub, rest) =>
   if fnc = 0xA2 then
-    if d.length ≠ 17 then (tbl, reply 0x10 []) else
+    if rest ≠ [] then (tbl, reply 0x10 []) else
     match Slc.typedRead tbl size fnum ftype elem sub with
     | .ok bs => (tbl, reply 0 bs)
     | .error e => (tbl, reply e [])
   else if fnc = 0xAB then
-    if d.length < 19 then (tbl, reply 0x10 []) else
-    match Slc.maskedWrite tbl size fnum ftype elem sub (leAt d 17 2) (d.drop 19) with
+    if rest.length < 2 then (tbl, reply 0x10 []) else
+    match Slc.maskedWrite tbl size fnum ftype elem sub (leVal (rest.take 2)) (rest.drop 2) with
     | .ok t' => (t', reply 0 [])
     | .error e => (tbl, reply e [])
   else (tbl, reply 0x10 [])
